@@ -26,7 +26,7 @@ THEOREMS = ["FP.Props.C07.klae_sound", "FP.Props.C07.klae_routes_valid", "FP.Pro
             "FP.Props.C07.objective_regression_example", "FP.Props.C07.every_optimum_consistent",
             "FP.Props.C01.pathcore_sound", "FP.Props.C12.binProd_exact"]
 IMPORTS = ["FP.Props.C07", "FP.Props.C01", "FP.Props.C12"]
-K2_ADAPTERS = ["klae"]
+K2_ADAPTERS = ["klae", "klaec"]
 RULE = ("K2: random kLeastAbsErrors configurations (scaling incl. 0, ignore sets, additional starts/ends, given weights, "
         "constraints, lengths, option flags). K5: random instances with arbitrary non-negative integer values <= 4 "
         "(conserving superpositions perturbed, or independent draws), DAG classes <= 6 edges, cyclic classes <= 5 edges, "
@@ -194,7 +194,13 @@ def with_given_weights(rng, inst):
 
 def run(ctx):
     rng = ctx.rng
-    k2.run_k2(ctx, K2_ADAPTERS, ctx.n(120, 2500))
+    k2.run_k2(ctx, K2_ADAPTERS, ctx.n(80, 1500))
+    for it in range(ctx.n(4, 30)):
+        for cls in ["kLeastAbsErrors", "kLeastAbsErrorsCycles"]:
+            inst = funnel_instance(ctx.rng)
+            if cls == "kLeastAbsErrors" and any(e[::-1] in [tuple(x) for x in inst["edges"]] for e in map(tuple, inst["edges"])):
+                continue
+            lae_case(ctx, dict(inst, cls=cls), suite="K5.funnel")
     per = ctx.n(120, 1000)
     for cls in ["kLeastAbsErrors", "kLeastAbsErrorsCycles"]:
         for it in range(per):
@@ -209,6 +215,23 @@ def run(ctx):
 def finding_case(ctx, inp):
     inst = {a: b for a, b in inp.items() if a not in ("solution", "brute_force_optimum")}
     lae_case(ctx, inst, suite="known-findings")
+
+
+def funnel_instance(rng):
+    """two (or three) heavy branches funnelled through one light edge: the optimal error on the light edge exceeds
+    the largest flow value (exercises the upper bounds of the error / product columns)"""
+    heavy = rng.choice([6, 8, 10]); light = rng.choice([1, 2])
+    nb = 2
+    nodes = [f"s{i}" for i in range(nb)] + ["u", "v"] + [f"t{i}" for i in range(nb)]
+    edges = [(f"s{i}", "u") for i in range(nb)] + [("u", "v")] + [("v", f"t{i}") for i in range(nb)]
+    fl = {e: heavy for e in edges}; fl[("u", "v")] = light
+    if rng.random() < 0.6:       # put the light edge on a 2-cycle
+        edges.append(("v", "u")); fl[("v", "u")] = 0
+    order = list(nodes); rng.shuffle(order)
+    eorder = list(edges); rng.shuffle(eorder)
+    return {"cls": None, "nodes": order, "edges": [list(e) for e in eorder], "origin": "edge", "weight_type": "int",
+            "ignore": [], "starts": [], "ends": [], "scaling": [], "options": {},
+            "flow": [[u, v, str(fl[(u, v)])] for (u, v) in eorder], "k": nb}
 
 
 def search(ctx):
